@@ -230,7 +230,7 @@ def cases(tier, seed):
         if th or i % 3 == 0:
             add(t, f, cx, "cond_absent", "override")
             add(t, f, cx, "const", "koverride")
-        if (th or i % 4 == 0) and t != "closure_nonlocal":  # tooled() on it is the open C01 finding (new cells)
+        if th or i % 4 == 0:
             add(t, f, cx, "const", "tweaking")
             add(t, f, cx, "ctx" if cx else "cond_absent", "rewriting")
     nests = TARGETS if th else [TARGETS[0], TARGETS[7], TARGETS[8], TARGETS[13], TARGETS[28]]
